@@ -172,6 +172,34 @@ class Atomizer:
             if saved is not None:
                 self.bdefs[n] = saved
 
+    def _predicate_body(self, e):
+        """``pred(a, b)`` where ``pred`` is a module-level helper of the analysed module whose body is a single ``return <expr>``
+        over its parameters and globals: that expression with the arguments substituted (a named condition is read through)."""
+        module = getattr(self, "_module", None)
+        repo = _BOUND["repo"] if "_BOUND" in globals() else None
+        if module is None or repo is None or not (isinstance(e, ast.Call) and isinstance(e.func, ast.Name) and not e.keywords):
+            return None
+        if e.func.id in ("isinstance", "len", "hasattr", "callable", "any", "all", "bool", "is_int"):
+            return None
+        sym = repo.resolve_name(module, e.func.id)
+        if sym is None or sym.kind != "func" or sym.module is not module:
+            return None
+        fn = sym.target
+        body = [x for x in fn.body if not (isinstance(x, ast.Expr) and isinstance(x.value, ast.Constant))]
+        params = [a.arg for a in fn.args.args]
+        if len(body) != 1 or not isinstance(body[0], ast.Return) or body[0].value is None or len(params) != len(e.args) \
+                or fn.args.vararg or fn.args.kwarg or fn.args.kwonlyargs or fn.decorator_list:
+            return None
+        if not isinstance(body[0].value, (ast.BoolOp, ast.Compare, ast.UnaryOp, ast.Call, ast.IfExp)):
+            return None
+        import copy
+        sub = dict(zip(params, e.args))
+
+        class _S(ast.NodeTransformer):
+            def visit_Name(self, n):
+                return copy.deepcopy(sub[n.id]) if n.id in sub and isinstance(n.ctx, ast.Load) else n
+        return ast.fix_missing_locations(_S().visit(copy.deepcopy(body[0].value)))
+
     def canon(self, e):
         ren = {}
         for n in ast.walk(e):
@@ -199,6 +227,9 @@ class Atomizer:
             return self.bdefs[e.id]
         if isinstance(e, ast.Call) and isinstance(e.func, ast.Name) and e.func.id == "len" and len(e.args) == 1 and not e.keywords:
             return neg(atom("eq(%s, 0)" % self.canon(e)))  # truthiness of a length
+        pb = self._predicate_body(e)
+        if pb is not None:
+            return self.formula(pb)
         if isinstance(e, ast.Call) and isinstance(e.func, ast.Name) and e.func.id == "isinstance" and len(e.args) == 2 and not e.keywords \
                 and isinstance(e.args[1], ast.Tuple) and e.args[1].elts:
             # isinstance(x, (A, B)) == isinstance(x, A) or isinstance(x, B): one atom per class
@@ -342,9 +373,13 @@ def _default_raising_calls(fn):
         f = call.func
         target = None
         if isinstance(f, ast.Name):
-            sym = repo.resolve_name(module, f.id)
-            if sym is not None and sym.kind == "func":
-                target = sym.target
+            nested = [x for x in ast.walk(fn) if isinstance(x, ast.FunctionDef) and x is not fn and x.name == f.id]
+            if len(nested) == 1:
+                target = nested[0]  # a closure defined inside the function under analysis
+            else:
+                sym = repo.resolve_name(module, f.id)
+                if sym is not None and sym.kind == "func":
+                    target = sym.target
         elif isinstance(f, ast.Attribute) and isinstance(f.value, ast.Name) and cls is not None and f.value.id in ("self", "cls", cls.name):
             h = repo.lookup_method(cls, f.attr)
             target = h[1] if h else None
@@ -375,6 +410,9 @@ class PathConditions:
         self.loops = 0
         if inline_raising_calls is None:
             inline_raising_calls = _default_raising_calls(fn)
+        _own = _BOUND["owner"].get(id(fn)) if _BOUND["repo"] is not None else None
+        if _own is not None and getattr(self.at, "_module", None) is None:
+            self.at._module = _own[0]
         self.inline_raising_calls = inline_raising_calls  # callable(call) -> formula or None: condition under which the call raises
         alive = self.walk(fn.body, TRUE)
         self.returns = disj(self.returns, alive)
